@@ -257,9 +257,8 @@ def check_meta_callback(ip, frame, env):
     key = ip.verifying_key
     cb = frame.locals.get('meta_callback')
     if not isinstance(cb, Closure):
-        ip.ctx.oblige('%s/loop@yield-loop:iteration/callback-reports-for-its-own-fragment' % key, z3.BoolVal(False),
-                      detail='the yielded callback is not a closure created in this iteration')
-        return
+        # the local was renamed or the callback is built differently: this ghost code cannot find it -> undecided, not a violation
+        raise Unsupported('the ghost code of the yield loop looks for the local `meta_callback` holding the yielded closure')
     node = cb.node
     params = {a.arg for a in node.args.posonlyargs + node.args.args + node.args.kwonlyargs}
     body = node.body if isinstance(node.body, list) else [node.body]
